@@ -17,4 +17,5 @@ var (
 	ErrDatabaseIsUsing        = errors.New("the database directory is used by another process")
 	ErrMergeRatioUnreached    = errors.New("the merge ratio do not reach the option")
 	ErrNoEnoughSpaceForMerge  = errors.New("no enough disk space for merge")
+	ErrMergeOutputOverflow    = errors.New("merged data needs more files than were merged, merge abandoned")
 )
